@@ -1191,11 +1191,156 @@ def loop_skip_paths(fn, lb, limit=64):
     return out
 
 
+def _mut_temps(fn, l):
+    """temps holding `&mut l` (and reborrows of them), or None if the borrow is stored somewhere"""
+    mtemps = set()
+    for bi in fn.normal_blocks():
+        for st in fn.blocks[bi]['stmts']:
+            if st['k'] == 'Assign' and st['rv']['k'] in ('Ref', 'RawPtr') and st['rv'].get('mutbl'):
+                pl = st['rv']['place']
+                if pl['local'] == l and not any(e_['k'] == 'Deref' for e_ in pl['proj']):
+                    if st['place']['proj']:
+                        return None
+                    mtemps.add(st['place']['local'])
+    changed = True
+    while changed:
+        changed = False
+        for bi in fn.normal_blocks():
+            for st in fn.blocks[bi]['stmts']:
+                if st['k'] != 'Assign' or st['place']['proj'] or st['place']['local'] in mtemps:
+                    continue
+                rv = st['rv']
+                src = None
+                if rv['k'] in ('Ref', 'RawPtr') and rv['place']['local'] in mtemps:
+                    src = rv['place']['local']
+                if rv['k'] == 'Use' and rv['op'].get('k') in ('Copy', 'Move') and rv['op']['place']['local'] in mtemps:
+                    src = rv['op']['place']['local']
+                if src is not None:
+                    mtemps.add(st['place']['local'])
+                    changed = True
+    return mtemps
+
+
+def straight_built(fn, l):
+    """A Vec local filled by a fixed sequence of appends outside any loop — `v.push(a); v.extend(it); v.push(b)` — is the
+    sequence once(a).chain(it).chain(once(b)): returns that chain expression (collected), or None when the vector is written
+    in any other way (conditionally, in a loop, by anything other than push/extend/extend_from_slice/append)"""
+    memo = fn.__dict__.setdefault('_straight_built', {})
+    if l in memo:
+        return memo[l]
+    memo[l] = None
+    if not re.match(r'^std::vec::Vec<', fn.local_ty(l)):
+        return None
+    ds = fn.defs().get(l, [])
+    if len(ds) != 1 or fn.stores().get(l):
+        return None
+    init = fn.expr_of_def(ds[0])
+    if not (init[0] == 'call' and re.search(r'Vec::<T>::(new|with_capacity)$|Vec::<T, A>::(new|with_capacity)', init[1])):
+        return None
+    mt = _mut_temps(fn, l)
+    if mt is None:
+        return None
+    writes = [c for c in fn.calls() if any(a.get('k') in ('Copy', 'Move') and a['place']['local'] in mt for a in c['term']['args'])]
+    if not writes:
+        return None
+    inloop = {b for (_h, body, _l) in fn.loops() for b in body}
+    parts = []
+    for c in writes:
+        p = c['path'] or ''
+        if c['block'] in inloop or len(c['term']['args']) < 2:
+            return None
+        a1 = fn.expr_of_operand(c['term']['args'][1])
+        if p.endswith('Vec::<T, A>::push'):
+            parts.append((c['block'], _call('std::iter::once', [a1])))
+        elif re.search(r'(Extend::extend|Vec::<T, A>::extend_from_slice|Vec::<T, A>::append|Extend<.*>>::extend)$', (c['gpath'] or '') + '|' + p) or p.endswith('::extend'):
+            parts.append((c['block'], expand(fn, a1)))
+        else:
+            return None
+    # a fixed order: every write dominates the next, and each one lies on every path from the first to the last
+    parts.sort(key=lambda x: x[0])
+    order = sorted(parts, key=lambda x: sum(1 for y in parts if fn.dominates(y[0], x[0])))
+    for a, b in zip(order, order[1:]):
+        if not (fn.dominates(a[0], b[0]) and fn.postdominates(b[0], a[0])):
+            return None
+    chain = order[0][1]
+    for _b, e in order[1:]:
+        chain = _call(ITER_FN + 'chain', [chain, e])
+    memo[l] = _call(ITER_FN + 'collect', [chain])
+    return memo[l]
+
+
+def string_join_loop(fn, l):
+    """`let mut s = String::new(); for (i, t) in SRC.enumerate() { if i > 0 { s.push(SEP) } s.push_str(t) }` is SRC.join(SEP):
+    returns dict(source=SRC, elem=t, sep=SEP) when String local `l` has exactly this shape, else None"""
+    if fn.local_ty(l) != 'std::string::String':
+        return None
+    ds = fn.defs().get(l, [])
+    if len(ds) != 1 or fn.stores().get(l):
+        return None
+    init = fn.expr_of_def(ds[0])
+    if not (init[0] == 'call' and init[1].endswith('String::new')):
+        return None
+    mt = _mut_temps(fn, l)
+    if mt is None:
+        return None
+    writes = [c for c in fn.calls() if any(a.get('k') in ('Copy', 'Move') and a['place']['local'] in mt for a in c['term']['args'])]
+    seps = [c for c in writes if c['path'].endswith('String::push')]
+    txts = [c for c in writes if c['path'].endswith('String::push_str')]
+    if len(writes) != 2 or len(seps) != 1 or len(txts) != 1:
+        return None
+    Ls = [L for L in fn.loops() if txts[0]['block'] in L[1]]
+    if len(Ls) != 1 or seps[0]['block'] not in Ls[0][1]:
+        return None
+    h, body, _ = Ls[0]
+    drv = [bi for bi in sorted(body) if fn.term(bi)['k'] == 'Call' and fn.term(bi).get('callee') and fn.term(bi)['callee']['path'].endswith('Iterator::next')]
+    if len(drv) != 1:
+        return None
+    it = strip(expand(fn, fn.expr_of_operand(fn.term(drv[0])['args'][0])))
+    if it[0] == 'call' and it[1].endswith('into_iter') and it[2]:
+        it = strip(it[2][0])
+    if not (it[0] == 'call' and it[3].endswith('Iterator::enumerate')):
+        return None
+    src = strip(it[2][0])
+    # the text is appended on every trip
+    stack, seen = [s_ for s_ in fn.succ(h) if s_ in body and s_ != txts[0]['block']], set()
+    while stack:
+        x = stack.pop()
+        if x == h:
+            return None
+        if x in seen or x == txts[0]['block']:
+            continue
+        seen.add(x)
+        stack.extend(s_ for s_ in fn.succ(x) if s_ in body and s_ != txts[0]['block'])
+    # the separator: before the text, under `index > 0` only
+    conds = []
+    for s_ in fn.switches():
+        if s_['block'] not in body:
+            continue
+        for lab, tgt in s_['edges']:
+            if fn.dominates(tgt, seps[0]['block']) and fn.pred(tgt) == [s_['block']] and not (s_['cond'][0] == 'discr' and strip(s_['cond'][1])[0] == 'call'):
+                conds.append((s_['cond'], lab))
+    if len(conds) != 1:
+        return None
+    c, lab = conds[0]
+    okidx = c[0] == 'bin' and ((c[1] in ('Gt', 'Ne') and lab is True) or (c[1] in ('Eq', 'Le') and lab is False)) and c[3][0] == 'int' and c[3][1] == 0 and \
+        strip(c[2])[0] == 'field' and strip(c[2])[2] == '0'
+    if not okidx or not fn.dominates(seps[0]['block'], txts[0]['block']) and not (seps[0]['block'] in fn.reach(h, stop={txts[0]['block']})):
+        return None
+    if txts[0]['block'] in fn.reach(seps[0]['block'], stop={h}) is False:
+        return None
+    text = fn.expr_of_operand(txts[0]['term']['args'][1])
+    sep = fn.expr_of_operand(seps[0]['term']['args'][1])
+    return dict(source=src, elem=text, sep=sep, loop=Ls[0])
+
+
 def seq_chain(fn, e):
     """`e` with a loop-built vector replaced by the equivalent iterator chain collect(map(SRC, loop-body)) [filter when a trip
-    can skip the push]; other expressions unchanged"""
+    can skip the push], a vector filled by a fixed sequence of appends by the chain of those parts; other expressions unchanged"""
     e0 = strip(e)
     if e0[0] == 'var':
+        sb = straight_built(fn, e0[1])
+        if sb is not None:
+            return sb
         lb = loop_built(fn, e0[1])
         if lb:
             src = lb['source']
@@ -1249,6 +1394,38 @@ def subst_closure(cf, body, params, caps):
             return caps[x[1]]
         return x
     return map_tree(body, one)
+
+
+def state_home(fn, e, depth=0):
+    """(function, expression) where a piece of state really lives: a value that is read out of the struct (or tuple) returned
+    by an in-crate helper — `let S { flag, .. } = parse_attributes(..)?` — is followed into the helper, whose own local it is"""
+    P = fn.prog
+    e0 = strip(e)
+    if depth > 4 or e0[0] != 'field':
+        return fn, e0
+    x = strip(e0[1])
+    while x[0] in ('try',) or (x[0] == 'payload' and x[2] in ('Some', 'Ok', 'Continue')):
+        x = strip(x[1])
+    if x[0] == 'call' and x[1] in P.fns:
+        H = P.fns[x[1]]
+        vals = []
+        for ex in H.exits():
+            if ex['kind'] in ('err_own', 'err_prop', 'none', 'none_prop', 'diverge'):
+                continue
+            v = strip(ex['expr'])
+            while v[0] == 'agg' and v[1].endswith(('Result::Ok', 'Option::Some')) and v[2]:
+                v = strip(v[2][0][1])
+            vals.append(v)
+        if len(vals) == 1:
+            v = vals[0]
+            inner = None
+            if v[0] == 'agg':
+                inner = dict(v[2]).get(e0[2])
+            elif v[0] == 'tuple' and str(e0[2]).isdigit() and int(e0[2]) < len(v[1]):
+                inner = v[1][int(e0[2])]
+            if inner is not None:
+                return state_home(H, inner, depth + 1)
+    return fn, e0
 
 
 def opt_norm(fn, e, depth=0):
